@@ -5,12 +5,24 @@
 package mgmt
 
 import (
+	"github.com/named-data/ndnd/fw/face"
 	"github.com/named-data/ndnd/fw/table"
 	enc "github.com/named-data/ndnd/std/encoding"
+	basic_engine "github.com/named-data/ndnd/std/engine/basic"
 )
 
 // VerifRegisterRoute is the table part of rib/register (existence check of
 // the route's face, registration, re-check).
 func VerifRegisterRoute(name enc.Name, route *table.Route) bool {
 	return registerRoute(name, route)
+}
+
+// VerifNlsrReadvertiser returns a real NLSR readvertiser. Its management
+// thread is not running: the command Interests it sends are queued on an
+// internal transport that is not attached to a face, and drain returns them.
+func VerifNlsrReadvertiser() (r table.RibReadvertise, drain func() [][]byte) {
+	m := new(Thread)
+	m.timer = basic_engine.NewTimer()
+	m.transport = face.MakeInternalTransport()
+	return NewNlsrReadvertiser(m), func() [][]byte { return face.VerifDrainInternalTransport(m.transport) }
 }
